@@ -1,4 +1,4 @@
 CONSTANTS SmallLens = {0, 1, 2, 5, 16, 17}
-BigLens = {4097, 8191, 8192, 8193, 8194, 16385, 65537}
+BigLens = {4097, 8191, 8192, 8193, 8194, 16385, 65537, 204801}
 INIT GenInit
 NEXT GenNext
